@@ -150,6 +150,27 @@ pub fn spaces(tier: Tier) -> Vec<Space<'static>> {
             .collect(),
     );
     let mut sp: Vec<Space> = vec![];
+    {
+        // the key of a document given as JSON text (three spellings) is the key of its encoding
+        let (d0, k0) = (d.clone(), keys.clone());
+        sp.push(Space::new("key of the text form == key of the encoding (canonical, short-escape and CRLF/TAB spellings)", n as u64, move |i, acc| {
+            let i = i as usize;
+            let v = &d0.vals[i];
+            if !v.all_finite() {
+                return;
+            }
+            let Ok(kb) = &k0[i] else { return };
+            for style in [0u8, 2, 3] {
+                acc.eval();
+                let t = refmodel::text::print_styled(v, style);
+                let r = guard(|| { let mut k = Vec::new(); jsonb::convert_to_comparable(t.as_bytes(), &mut k); k });
+                match r {
+                    Ok(k) if &k == kb => {}
+                    other => acc.vio("key:text-form-key-differs-from-the-key-of-the-encoding", || json!({"text": t, "style": style, "observed": format!("{:?}", other.map(|k| hex(&k)).map_err(|p| panic_class(&p))), "expected": hex(kb)})),
+                }
+            }
+        }));
+    }
     let (d1, k1) = (d.clone(), keys.clone());
     sp.push(Space::new("all-pairs", n as u64, move |i, acc| {
         let i = i as usize;
